@@ -51,6 +51,11 @@ pub struct CountSrc<S> {
   inner: S,
   subs: Arc<AtomicUsize>,
 }
+impl<S> CountSrc<S> {
+  pub fn new(inner: S, subs: Arc<AtomicUsize>) -> Self {
+    CountSrc { inner, subs }
+  }
+}
 impl<S, O> Observable<Val, E, O> for CountSrc<S>
 where
   S: Observable<Val, E, O>,
